@@ -213,6 +213,10 @@ def rules(ctx):
             continue
         calls = [c for c in calls_in(m.node) if src(c.func) == 'PCBO.%s' % name]
         ok = len(calls) == 1 and tgt is not None
+        if not calls and tgt is not None and [alpha_src(x) for x in strip_docstring(m.node.body)] == \
+                [alpha_src(x) for x in strip_docstring(tgt.node.body)] and m.params == tgt.params:
+            ctx.inst('R03.5', m, 'def %s' % name, True, "statement-wise equal to PCBO.%s" % name)
+            continue
         if ok:
             c = calls[0]
             selfn = R.self_name(m)
